@@ -94,20 +94,47 @@ theorem idomTables_sound (g : Graph) (hg : GraphWF g) (s t : Node) :
                 ⟨fun e he => (hadj _ _).2 (hwf.walk e he), hwf.first, hwf.last⟩
               exact findIdom_sound _ _ _ _ _ htb _ hwf'
 
+/-- what `maxSafeSeqs` hands to the dominator machinery: some list of edges and a sublist `X'` of `X` -/
+theorem maxSafeSeqs_cases (g : Graph) (s t : Node) (X : List Edge) (seqs : List (List Edge))
+    (h : maxSafeSeqs g s t X = .ok seqs) :
+    seqs = [] ∨ ∃ es X' si ti, (∀ c ∈ X', c ∈ X) ∧
+      idomTables s t es (succAdj g) (predAdj g) [] [] = .ok (si, ti) ∧ maxSeqsFromIdoms si ti X' = .ok seqs := by
+  unfold maxSafeSeqs at h
+  by_cases hX : X.isEmpty = true
+  · rw [if_pos hX] at h; injection h with h; exact Or.inl h.symm
+  · rw [if_neg hX] at h
+    cases hes : onSomeWalk g s t with
+    | raises w => rw [hes] at h; cases h
+    | fuel => rw [hes] at h; cases h
+    | ok es =>
+      rw [hes] at h
+      simp only at h
+      generalize hX' : (if es.length < g.edges.length then X.filter (fun e => decide (e ∈ es)) else X) = X' at h
+      have hsub : ∀ c ∈ X', c ∈ X := by
+        intro c hc
+        subst hX'
+        split at hc
+        · exact (List.mem_filter.1 hc).1
+        · exact hc
+      by_cases hE : X'.isEmpty = true
+      · rw [if_pos hE] at h; injection h with h; exact Or.inl h.symm
+      · rw [if_neg hE] at h
+        split at h
+        · rename_i si ti htab
+          exact Or.inr ⟨es, X', si, ti, hsub, htab, h⟩
+        · cases h
+        · cases h
+
 /-- **T5.** -/
 theorem maxSafeSeqs_safe (g : Graph) (hg : GraphWF g) (s t : Node) (X : List Edge) (seqs : List (List Edge))
     (h : maxSafeSeqs g s t X = .ok seqs) : ∀ q ∈ seqs, ∃ c ∈ X, ForcedBy g s t [c] q := by
-  unfold maxSafeSeqs at h
-  by_cases hX : X.isEmpty = true
-  · rw [if_pos hX] at h; injection h with h; subst h; intro q hq; simp at hq
-  · rw [if_neg hX] at h
-    split at h
-    · rename_i si ti htab
-      obtain ⟨hs, ht⟩ := idomTables_sound g hg s t _ _ _ _ _ _ _ htab (fun _ _ => Iff.rfl) (fun _ _ => Iff.rfl)
-        (fun e d hm => by simp at hm) (fun e d hm => by simp at hm)
-      exact maxSeqsFromIdoms_forced g s t si ti
-        (fun e d hl => hs e d (lookup_mem _ _ _ hl)) (fun e d hl => ht e d (lookup_mem _ _ _ hl)) X seqs h
-    · cases h
-    · cases h
+  rcases maxSafeSeqs_cases g s t X seqs h with rfl | ⟨es, X', si, ti, hsub, htab, hm⟩
+  · intro q hq; simp at hq
+  · obtain ⟨hs, ht⟩ := idomTables_sound g hg s t _ _ _ _ _ _ _ htab (fun _ _ => Iff.rfl) (fun _ _ => Iff.rfl)
+      (fun e d hm => by simp at hm) (fun e d hm => by simp at hm)
+    intro q hq
+    obtain ⟨c, hc, hf⟩ := maxSeqsFromIdoms_forced g s t si ti
+      (fun e d hl => hs e d (lookup_mem _ _ _ hl)) (fun e d hl => ht e d (lookup_mem _ _ _ hl)) X' seqs hm q hq
+    exact ⟨c, hsub c hc, hf⟩
 
 end FP.Safety
